@@ -40,6 +40,7 @@ pub struct PointCloudWriter<'a, T: Read + Write + Seek> {
     cartesian_bounds: Option<CartesianBounds>,
     spherical_bounds: Option<SphericalBounds>,
     index_bounds: Option<IndexBounds>,
+    finalized: bool,
     color_limits: Option<ColorLimits>,
     intensity_limits: Option<IntensityLimits>,
     name: Option<String>,
@@ -158,6 +159,7 @@ impl<'a, T: Read + Write + Seek> PointCloudWriter<'a, T> {
             cartesian_bounds,
             spherical_bounds,
             index_bounds,
+            finalized: false,
             color_limits,
             intensity_limits,
             name: None,
@@ -437,6 +439,9 @@ impl<'a, T: Read + Write + Seek> PointCloudWriter<'a, T> {
 
     /// Adds a new point to the point cloud.
     pub fn add_point(&mut self, values: RawValues) -> Result<()> {
+        if self.finalized {
+            Error::invalid("The point cloud was already finalized, no more points can be added")?
+        }
         if values.len() != self.prototype.len() {
             Error::invalid("Number of values does not match prototype length")?
         }
@@ -563,6 +568,10 @@ impl<'a, T: Read + Write + Seek> PointCloudWriter<'a, T> {
 
     /// Called after all points have been added to finalize the creation of the new point cloud.
     pub fn finalize(&mut self) -> Result<()> {
+        if self.finalized {
+            Error::invalid("The point cloud was already finalized")?
+        }
+
         // Flush remaining points from buffer into byte streams and write them
         while !self.buffer.is_empty() {
             self.write_buffer_to_disk(false)?;
@@ -615,6 +624,7 @@ impl<'a, T: Read + Write + Seek> PointCloudWriter<'a, T> {
 
         // Add metadata for XML generation later, when the file is completed.
         self.pointclouds.push(pc);
+        self.finalized = true;
 
         Ok(())
     }
